@@ -2,9 +2,13 @@ package main
 
 import (
 	"fmt"
+	"github.com/uhppoted/uhppote-core/types"
+	"github.com/uhppoted/uhppote-core/uhppote"
 	"net"
+	"net/netip"
 	"os"
 	"runtime/debug"
+	"strings"
 	"sync"
 	"syscall"
 	"time"
@@ -244,6 +248,9 @@ func runC09(o Opts) error {
 					fmt.Sprintf("the call gave up after %d ms (timeout 1500 ms) although the addressed controller's reply followed 900 stray datagrams well before the deadline: %v", ms(time.Since(st)), err))
 			}
 		}
+		// the controller answers from the same PORT NUMBER as the client's fixed bind port (on another address): its reply
+		// is a reply like any other and is accepted when it arrives
+		samePortReply(s, T)
 		// a batch of mixed concurrent calls, then the accounting
 		specs, udpIDs, tcpIDs := genScenario(r, farm, 6, false)
 		u := farmClient(farm, 0, T, udpIDs, tcpIDs)
@@ -363,4 +370,42 @@ func slowAcceptCall(T time.Duration) (dur time.Duration, ok bool, connectedAfter
 		c.Close()
 	}
 	return dur, full, firstAccept
+}
+
+func samePortReply(s *Sink, T time.Duration) {
+	for attempt := 0; attempt < 3; attempt++ {
+		p := freeUDPPort()
+		ctl, err := net.ListenUDP("udp4", &net.UDPAddr{IP: net.IPv4(127, 0, 0, 2), Port: p})
+		if err != nil {
+			continue
+		}
+		go func() {
+			buf := make([]byte, 2048)
+			for {
+				n, from, err := ctl.ReadFromUDP(buf)
+				if err != nil {
+					return
+				}
+				if n == 64 {
+					req := append([]byte{}, buf[:n]...)
+					go func() { time.Sleep(40 * time.Millisecond); ctl.WriteToUDP(farmReply(req), from) }()
+				}
+			}
+		}()
+		bind := types.BindAddrFrom(netip.AddrFrom4([4]byte{127, 0, 0, 1}), uint16(p))
+		bc := types.BroadcastAddrFrom(netip.AddrFrom4([4]byte{127, 0, 0, 2}), uint16(p))
+		u := uhppote.NewUHPPOTE(bind, bc, types.ListenAddrFrom(netip.AddrFrom4([4]byte{127, 0, 0, 1}), 60001), T, nil, false)
+		st := time.Now()
+		e, cerr := u.GetEvent(800000081, 77)
+		dur := time.Since(st)
+		ctl.Close()
+		if cerr != nil && strings.Contains(cerr.Error(), "address already in use") {
+			continue // the port was taken in the meantime
+		}
+		if cerr != nil || e == nil || e.Index != 77 {
+			s.Fail(map[string]any{"op": "same-port-reply", "fault": "same-port-reply", "path": "broadcast", "dur_ms": ms(dur)},
+				fmt.Sprintf("a reply sent 40 ms after the request from a controller whose port number equals the client's bind port was not accepted (%v after %d ms, timeout %d ms)", cerr, ms(dur), ms(T)))
+		}
+		return
+	}
 }
